@@ -435,7 +435,7 @@ def nontrivial(scn, outs):
 
 def batch_sizes(prop, tier):
     q = {"C09": 288, "C18": 320, "C20": 320}
-    t = {"C09": 4000, "C18": 16000, "C20": 16000}
+    t = {"C09": 1500, "C18": 16000, "C20": 10000}
     n = (q if tier == "quick" else t)[prop]
     scale = float(os.environ.get("VERIF_SCALE", "1"))
     return max(4, int(n * scale))
